@@ -17,6 +17,8 @@ import (
 	"verif/harness/vf"
 )
 
+var presentIn = []*time.Location{time.UTC, time.FixedZone("p9", 9*3600), time.FixedZone("m8", -8*3600), time.FixedZone("m12", -12*3600), time.FixedZone("p14", 14*3600), time.FixedZone("p545", 5*3600+45*60)}
+
 func TestMain(m *testing.M) { vf.Main(m, "C15", "exploration") }
 
 // allLocations lists every IANA name found in the system tz database.
@@ -166,7 +168,8 @@ func TestCalendarDifferential(t *testing.T) {
 			_, off := tt.In(loc).Zone()
 			want := spec.Contains(model.CivilFromUnix(u, off))
 			got := ti.ContainsTime(tt.UTC())
-			muted, names, err := iv.Mutes([]string{"ti0"}, tt)
+			// the same instant presented in an arbitrary zone (the flush time carries the process's zone)
+			muted, names, err := iv.Mutes([]string{"ti0"}, tt.In(presentIn[r.Intn(len(presentIn))]))
 			sub.Case(vf.Digest(y, u), constrained)
 			if want {
 				in++
